@@ -179,8 +179,8 @@ Definition command_phase (s : store) (st : xstate) (c : script) : xstate * optio
     end
   else ({| x_cache := x_cache st2; x_root := delete_snap (x_root st2) sid; x_log := x_log st2 |}, Some true, o).
 
-(* Executer.ExecuteTransaction with one registered module *)
-Definition execute_tx (s : store) (st : xstate) (t : tx) : xstate * xres * list obs :=
+(* Executer.executeTransaction with one registered module *)
+Definition execute_tx_inner (s : store) (st : xstate) (t : tx) : xstate * xres * list obs :=
   let st := with_log st (set_default_topic (x_log st) (tx_id t)) in
   let '(st1, _, o1) := run s st [] (fst (tx_before t)) in
   if snd (tx_before t) then (st1, XInvalid, o1) else
@@ -198,3 +198,17 @@ Definition execute_tx (s : store) (st : xstate) (t : tx) : xstate * xres * list 
           end
       end
   end.
+
+(* Executer.ExecuteTransaction (fix f89ea6f): the staged store is snapshotted on entry and restored when the result is
+   Invalid (a hook failed, unknown command, the command's own snapshot was gone) — the events are not touched *)
+Definition execute_tx (s : store) (st : xstate) (t : tx) : xstate * xres * list obs :=
+  let (sid, v) := snap (x_root st) (x_cache st) in
+  let '(st1, r, o) := execute_tx_inner s {| x_cache := x_cache st; x_root := v; x_log := x_log st |} t in
+  let st2 := match r with
+             | XInvalid => match restore (x_root st1) sid with
+                           | Some (c0, v') => {| x_cache := c0; x_root := v'; x_log := x_log st1 |}
+                           | None => st1
+                           end
+             | _ => st1
+             end in
+  ({| x_cache := x_cache st2; x_root := delete_snap (x_root st2) sid; x_log := x_log st2 |}, r, o).
